@@ -75,34 +75,41 @@ func heavyCase(c Config, tier tierRules) bool {
 // ---------------------------------------------------------------- child
 
 func childMain() {
-	idx, _ := strconv.Atoi(os.Getenv("VERIF_C14_CASE"))
 	cfgs := allConfigs()
-	if idx < 0 || idx >= len(cfgs) {
-		fw.Fatalf("bad case index %d", idx)
-	}
-	if cfgs[idx].Huge() {
-		// No collection inside a multi-GiB case: a page freed next to the untouched part of the heap makes the
-		// Go runtime clear the whole next 4 GiB span (it starts in "dirty" pages), i.e. 4 GiB of page faults.
-		debug.SetGCPercent(-1)
-	}
-	res := runCase(cfgs[idx], tierOf(os.Getenv("VERIF_C14_TIER")))
-	b, _ := json.Marshal(res)
 	w := bufio.NewWriter(os.Stdout)
-	w.WriteString("RESULT ")
-	w.Write(b)
-	w.WriteString("\n")
-	w.Flush()
+	for _, f := range strings.Split(os.Getenv("VERIF_C14_CASE"), ",") {
+		idx, err := strconv.Atoi(f)
+		if err != nil || idx < 0 || idx >= len(cfgs) {
+			fw.Fatalf("bad case index %q", f)
+		}
+		if cfgs[idx].Huge() {
+			// No collection inside a multi-GiB case: a page freed next to the untouched part of the heap makes the
+			// Go runtime clear the whole next 4 GiB span (it starts in "dirty" pages), i.e. 4 GiB of page faults.
+			debug.SetGCPercent(-1)
+		}
+		res := runCase(cfgs[idx], tierOf(os.Getenv("VERIF_C14_TIER")))
+		b, _ := json.Marshal(res)
+		fmt.Fprintf(w, "RESULT %d ", idx)
+		w.Write(b)
+		w.WriteString("\n")
+		w.Flush()
+	}
 	os.Exit(0)
 }
 
-// runChild executes one case in a fresh process.
-func runChild(idx int, tier string, timeout time.Duration) (*CaseResult, *fw.Crash) {
+// runChild executes a batch of cases (normally one) in a fresh process. A crash is attributed to the first case
+// of the batch that produced no result.
+func runChild(idxs []int, tier string, timeout time.Duration) (map[int]*CaseResult, *fw.Crash) {
 	self, err := os.Executable()
 	if err != nil {
 		fw.Fatalf("os.Executable: %v", err)
 	}
+	var ids []string
+	for _, i := range idxs {
+		ids = append(ids, strconv.Itoa(i))
+	}
 	cmd := exec.Command(self, tier)
-	cmd.Env = append(os.Environ(), "VERIF_C14_CASE="+strconv.Itoa(idx), "VERIF_C14_TIER="+tier)
+	cmd.Env = append(os.Environ(), "VERIF_C14_CASE="+strings.Join(ids, ","), "VERIF_C14_TIER="+tier)
 	var out, errb bytes.Buffer
 	cmd.Stdout = &out
 	cmd.Stderr = &errb
@@ -112,26 +119,37 @@ func runChild(idx int, tier string, timeout time.Duration) (*CaseResult, *fw.Cra
 	done := make(chan error, 1)
 	go func() { done <- cmd.Wait() }()
 	var werr error
+	var crash *fw.Crash
 	select {
 	case werr = <-done:
 	case <-time.After(timeout):
 		cmd.Process.Kill()
 		<-done
-		return nil, &fw.Crash{Kind: "timeout", Stderr: tail(errb.String())}
+		crash = &fw.Crash{Kind: "timeout", Stderr: tail(errb.String())}
 	}
+	results := map[int]*CaseResult{}
 	for _, l := range strings.Split(out.String(), "\n") {
 		if strings.HasPrefix(l, "RESULT ") {
-			res := newResult()
-			if err := json.Unmarshal([]byte(l[7:]), res); err != nil {
-				fw.Fatalf("child %d: bad result: %v", idx, err)
+			rest := l[7:]
+			sp := strings.IndexByte(rest, ' ')
+			if sp < 0 {
+				continue // truncated by a crash
 			}
-			return res, nil
+			idx, _ := strconv.Atoi(rest[:sp])
+			res := newResult()
+			if err := json.Unmarshal([]byte(rest[sp+1:]), res); err != nil {
+				continue // truncated by a crash
+			}
+			results[idx] = res
 		}
 	}
-	if werr != nil && strings.Contains(errb.String(), "HARNESS-ERROR") {
-		fw.Fatalf("child %d: %s", idx, tail(errb.String()))
+	if crash == nil && len(results) < len(idxs) {
+		if werr != nil && strings.Contains(errb.String(), "HARNESS-ERROR") {
+			fw.Fatalf("child %v: %s", idxs, tail(errb.String()))
+		}
+		crash = &fw.Crash{Kind: "crash", Stderr: fmt.Sprintf("%v\n%s", werr, tail(errb.String()))}
 	}
-	return nil, &fw.Crash{Kind: "crash", Stderr: fmt.Sprintf("%v\n%s", werr, tail(errb.String()))}
+	return results, crash
 }
 
 func tail(s string) string {
@@ -269,7 +287,7 @@ func main() {
 	var mu sync.Mutex
 	total := newResult()
 	samples := fw.NewSampler(16)
-	var casesDone, crashes, rejected int64
+	var casesDone, crashes, rejected, transient int64
 	perClass := map[string]int64{}
 	type slow struct {
 		s float64
@@ -321,14 +339,40 @@ func main() {
 		samples.Add(res.Sample)
 	}
 
-	hugeQ := make(chan int, len(heavy))
+	// Process start-up dominates small cases: configurations the reference rejects (min > limit; they only compile
+	// two modules per engine) share a child 24 at a time, accepted configurations that never reach a multi-GiB size
+	// 6 at a time; every multi-GiB case has a process (a heap) of its own. If a batch crashes, the cases without a
+	// result are re-run one per process, so a crash is still attributed to exactly one configuration.
+	var batches [][]int
+	var rejectedQ, plainQ []int
+	flush := func(l *[]int, n int, force bool) {
+		if len(*l) >= n || (force && len(*l) > 0) {
+			batches = append(batches, *l)
+			*l = nil
+		}
+	}
+	for _, i := range small {
+		switch c := cfgs[i]; {
+		case !c.Accepted():
+			rejectedQ = append(rejectedQ, i)
+			flush(&rejectedQ, 24, false)
+		case c.Huge():
+			batches = append(batches, []int{i})
+		default:
+			plainQ = append(plainQ, i)
+			flush(&plainQ, 6, false)
+		}
+	}
+	flush(&rejectedQ, 24, true)
+	flush(&plainQ, 6, true)
+	hugeQ := make(chan []int, len(heavy))
 	for _, i := range heavy {
-		hugeQ <- i
+		hugeQ <- []int{i}
 	}
 	close(hugeQ)
-	smallQ := make(chan int, len(small))
-	for _, i := range small {
-		smallQ <- i
+	smallQ := make(chan []int, len(batches))
+	for _, b := range batches {
+		smallQ <- b
 	}
 	close(smallQ)
 	nw := runtime.NumCPU()
@@ -337,15 +381,49 @@ func main() {
 	}
 	const hugeWorkers = 4
 	var wg sync.WaitGroup
-	work := func(q chan int) {
-		for i := range q {
+	var work func(q chan []int)
+	runBatch := func(b []int) {
+		t := time.Now()
+		results, crash := runChild(b, run.Tier, timeout)
+		wall := time.Since(t).Seconds()
+		var missing []int
+		for _, i := range b {
+			if r := results[i]; r != nil {
+				handle(i, r, nil, wall/float64(len(b)))
+			} else {
+				missing = append(missing, i)
+			}
+		}
+		switch {
+		case len(missing) == 0:
+		default:
+			// A crash must reproduce in a fresh process of its own before it is reported (DESIGN 1.6); this also
+			// finds the culprit of a batch. A crash that does not reproduce is recorded in the evidence notes.
+			for _, i := range missing {
+				var r map[int]*CaseResult
+				var c *fw.Crash
+				for attempt := 0; attempt < 2; attempt++ {
+					if r, c = runChild([]int{i}, run.Tier, timeout); c == nil {
+						break
+					}
+				}
+				if c == nil && crash != nil {
+					mu.Lock()
+					transient++
+					run.Note("child process of %s (batch of %d) ended with %q once and completed when re-run alone: not reported", cfgs[i], len(b), fw.FirstLines(crash.Stderr, 2))
+					mu.Unlock()
+				}
+				handle(i, r[i], c, 0)
+			}
+		}
+	}
+	work = func(q chan []int) {
+		for b := range q {
 			if run.Expired() {
 				run.Capped("budget")
 				return
 			}
-			t := time.Now()
-			res, crash := runChild(i, run.Tier, timeout)
-			handle(i, res, crash, time.Since(t).Seconds())
+			runBatch(b)
 		}
 	}
 	t0 := time.Now()
@@ -395,7 +473,7 @@ func main() {
 			"evaluations = individual comparisons implementation-vs-reference; distinct = distinct states (rejected configurations have none)",
 		Samples: samples.List(), Exhaustive: true, Outcomes: out, Bounds: bounds,
 		Extra: map[string]any{
-			"cases_run": casesDone, "configurations_without_states(compile_rejected_incl_known_finding)": rejected, "child_crashes": crashes,
+			"cases_run": casesDone, "child_crashes_not_reproduced": transient, "configurations_without_states(compile_rejected_incl_known_finding)": rejected, "child_crashes": crashes,
 			"instances": total.Instances, "replayed_prefix_steps": total.ReplaySteps, "max_depth_reached": total.MaxDepth,
 			"huge_realloc_executed": total.HugeRealloc, "huge_realloc_outside_tier_bound": total.SkippedHR,
 		},
